@@ -338,9 +338,54 @@ class FactoryBattery:
                                 bad("state-for-a-uniform-independent-of-the-order-of-the-draws", info)
                     except Exception as e:
                         bad("sampler-built-by-the-factory-samples", {**info, "exception": f"{type(e).__name__}: {str(e)[:120]}"})
+            # inversion beyond its stored cumulative sums (the store capped at a few entries): stateful index projection
+            for mname, m in models.items():
+                ev += 1
+                grid = CTMCUniformGrid(h=0.05, model=m)
+                info = {"model": mname, "method": "INVERSION", "stored_cumulative_sums_capped_at": 6}
+                try:
+                    def inv_draws(order, cap):
+                        p = MarkovChainProcess(model=m, method=SamplingMethod.INVERSION, grid=grid)
+                        s = p.sampling
+                        if cap is not None:
+                            s._max_storage = cap
+                        return {float(u): int(np.ravel(s.sample_with_u(float(u)))[0]) for u in order}
+                    uh = (np.arange(400) + 0.5) / 400
+                    ref = inv_draws(uh, None)
+                    a = inv_draws(uh[np.random.default_rng(1).permutation(400)], 6)
+                    b = inv_draws(uh[::-1], 6)
+                    if a != ref or b != ref:
+                        k = next(u for u in ref if a[u] != ref[u] or b[u] != ref[u])
+                        bad("inversion-with-a-capped-store-answers-like-an-uncapped-one-in-any-order", {**info, "u": k, "uncapped": ref[k], "capped_random_order": a[k], "capped_decreasing_order": b[k]})
+                except Exception as e:
+                    bad("sampler-built-by-the-factory-samples", {**info, "exception": f"{type(e).__name__}: {str(e)[:120]}"})
+            # the table method on a short vector whose first state owns table slots
+            ev += 1
+            try:
+                from rpylib.distribution.variate.table import TableMethod
+                # a vector of multiples of 1/256 (no remainder for the alias part) must be sampled too
+                tm0 = TableMethod(np.array([0.5, 0.25, 0.25]), lambda k: k)
+                o0 = np.asarray(tm0.sample(size=4000), dtype=int)
+                f0 = np.bincount(o0, minlength=3) / o0.size
+                if np.abs(f0 - np.array([0.5, 0.25, 0.25])).max() > 4e-2:
+                    bad("table-method-on-a-short-vector", {"p": [0.5, 0.25, 0.25], "frequencies": f0.tolist()})
+                pv = np.array([0.3, 0.2, 0.5])
+                tm = TableMethod(pv, lambda k: k)
+                rng = random.Random(5)
+                old = T.random.getrandbits
+                T.random.getrandbits = rng.getrandbits
+                try:
+                    out = np.asarray(tm.sample(size=200000), dtype=int)
+                finally:
+                    T.random.getrandbits = old
+                fr = np.bincount(out, minlength=3) / out.size
+                if np.abs(fr - pv).max() > 5e-3:
+                    bad("table-method-on-a-short-vector", {"p": pv.tolist(), "frequencies": fr.tolist()})
+            except Exception as e:
+                bad("table-method-on-a-short-vector", {"exception": f"{type(e).__name__}: {str(e)[:120]}"})
             # two dimensions
             cm = battery.copula_model(2, "clayton")
-            grid2 = CTMCUniformGrid(h=0.2, model=cm)
+            grid2 = CTMCUniformGrid(h=0.1, model=cm)        # 9 x 9 states: every quadrant bucket holds several states of visible mass
             n2 = 20000
             u2 = (np.arange(n2) + 0.5) / n2
             for meth in (SamplingMethod.INVERSION, SamplingMethod.BINARYSEARCHTREEADAPTED):
